@@ -366,6 +366,16 @@ func genSOps(rng *Rng, sc *SScript, prop string) {
 		if prop == "C05" || prop == "C03" || prop == "C04" {
 			sc.Knobs.Crashes = rng.Range(0, 2)
 		}
+		if (prop == "C05" || prop == "C06") && n == 2 && rng.Pct(30) {
+			// directed constellation: two tasks whose packs meet in one batch of one downstream channel, and a pack that the
+			// downstream refuses on every attempt (what happens to the packs behind it, and to the loop that serves both tasks)
+			sc.Ops[0].Spec.Coll, sc.Ops[0].Spec.Target = "c1", 0
+			sc.Ops[1].Spec.Coll, sc.Ops[1].Spec.Target = "*", 0
+			sc.Knobs.PackCount = Pick(rng, []int{2, 3})
+			sc.Knobs.PackTimerMs = 5000
+			sc.Faults["dw_pack"] = rng.Range(1, 2)
+			sc.Faults["dw_down"] = 0
+		}
 		if rng.Pct(20) {
 			sc.MsgFaults = []int{rng.Range(0, 5)}
 		}
